@@ -1,31 +1,40 @@
 ----------------------------- MODULE MC_Bridge -----------------------------
 (* Exhaustive small-constant instances of Bridge.tla: 3 authorizers, every  *)
-(* signature LIST (order matters for the code as written) of up to 3 / 4    *)
-(* entries from {valid_i, forged_i, stranger, garbage_1}, nonces repeated,  *)
-(* registrations and deletions; burns around the minimum.  Burns and mints  *)
-(* do not interact, so they are explored by separate configs (NoSeqs /      *)
-(* NoVals switch the other half off).  The properties are checked as action *)
-(* properties on every transition; states are identified by StateView.      *)
+(* MULTISET of up to 3 / 4 signature entries from {valid_i, forged_i,       *)
+(* stranger, garbage_1} (and, for the order-sensitive code as written,      *)
+(* every LIST of up to 3), nonces repeated, registrations and deletions;    *)
+(* burns around the minimum.  Burns and mints do not interact, so they are  *)
+(* explored by separate configs (NoSeqs / NoVals switch the other half      *)
+(* off).  The properties are checked as action properties on every          *)
+(* transition; states are identified by StateView.  Authorizers are deleted *)
+(* and re-registered in the order of AuthOrder (they are interchangeable).  *)
 EXTENDS Bridge
 
-SigAlphabet == {[a |-> x, k |-> kk] : x \in Auths, kk \in {"valid", "forged"}}
-                 \cup {[a |-> Stranger, k |-> "valid"], [a |-> "a1", k |-> "garbage"]}
+KindSeq == <<[a |-> "a1", k |-> "valid"], [a |-> "a2", k |-> "valid"], [a |-> "a3", k |-> "valid"],
+             [a |-> "a1", k |-> "forged"], [a |-> "a2", k |-> "forged"], [a |-> "a3", k |-> "forged"],
+             [a |-> "u1", k |-> "valid"], [a |-> "a1", k |-> "garbage"]>>
+SigAlphabet == {KindSeq[i] : i \in 1..Len(KindSeq)}
 SeqsUpTo(S, n) == UNION {[1..k -> S] : k \in 0..n}
+\* multisets as non-decreasing index sequences
+Sorted(n) == UNION {{[i \in 1..k |-> KindSeq[t[i]]] : t \in {s \in [1..k -> 1..Len(KindSeq)] : \A i \in 1..(k - 1) : s[i] <= s[i + 1]}} : k \in 0..n}
+Multi3 == Sorted(3)
+Multi4 == Sorted(4)
+Seqs2 == SeqsUpTo(SigAlphabet, 2)
 Seqs3 == SeqsUpTo(SigAlphabet, 3)
-Seqs4 == SeqsUpTo(SigAlphabet, 4)
 NoSeqs == {}
 NoVals == {}
 Order3 == <<"a1", "a2", "a3">>
 E2 == {"e1", "e2"}
 Vals4 == {0, 1, 2, 3}
 
+Pos(a) == CHOOSE i \in 1..Len(AuthOrder) : AuthOrder[i] = a
 \* the trailing conjunct makes TLC report coverage under these names
 A_BurnOk == (\E c \in Client, e \in Eth \cup {NoEth}, v \in BurnVals : Burn(c, e, v) /\ last'.ok) /\ TRUE
 A_BurnFail == (\E c \in Client, e \in Eth \cup {NoEth}, v \in BurnVals : Burn(c, e, v) /\ ~last'.ok) /\ TRUE
 A_MintOk == (\E p \in MintPayloads : Accepts("c1", p) /\ Mint("c1", p)) /\ TRUE
 A_MintFail == (\E p \in MintPayloads : ~Accepts("c1", p) /\ Mint("c1", p)) /\ TRUE
-A_Register == (\E a \in Auths : Register(a)) /\ TRUE
-A_Delete == (\E a \in Auths : Delete(a)) /\ TRUE
+A_Register == (\E a \in Auths : Pos(a) = Cardinality(auth) + 1 /\ Register(a)) /\ TRUE
+A_Delete == (\E a \in Auths : Pos(a) = Cardinality(auth) /\ Delete(a)) /\ TRUE
 MCNext == A_BurnOk \/ A_BurnFail \/ A_MintOk \/ A_MintFail \/ A_Register \/ A_Delete
 MCSpec == Init /\ [][MCNext]_vars
 =============================================================================
